@@ -213,8 +213,14 @@ class Run(object):
                 iobs = r.get('obs')
                 self.validated += 1
                 if mobs != iobs:
-                    # a disagreement explained by an open known finding is not counted twice
-                    if any(findings and findings.match(ctx.prop, df['sig']) for df in (r.get('d_fail') or [])):
+                    # A disagreement on a case that also shows an open known finding is counted like any other: the models
+                    # reproduce the known defects, so a disagreement there is a regression stacked on the defect.  Only a
+                    # property module that declares K_EXEMPT_SIGS (signatures for which its model deliberately does NOT
+                    # reproduce the defect) gets the exemption, and the exempted cases are counted.
+                    exempt = getattr(mod, 'K_EXEMPT_SIGS', ())
+                    if any(df['sig'] in exempt and findings and findings.match(ctx.prop, df['sig'])
+                           for df in (r.get('d_fail') or [])):
+                        ctx.count('k_exempt_known_finding')
                         continue
                     self.k_fail.append((case, iobs, mobs))
 
